@@ -75,7 +75,7 @@ class Channel(object):
         pass
 
     def basic_qos(self, prefetch_size=0, prefetch_count=0, global_qos=False, callback=None):
-        self.prefetch = prefetch_count
+        self.broker.basic_qos(self, prefetch_size, prefetch_count, global_qos)
         if callback:
             callback(Frame(None))
 
